@@ -27,6 +27,7 @@ fn c8op_strategy() -> impl Strategy<Value = C8Op> {
         2 => prop::collection::vec(small_blk_strategy(), 0..6).prop_map(Op::Batch),
         4 => clear_strategy(),
         4 => boundary_clear_strategy(),
+        5 => page_clear_strategy(),
         3 => Just(Op::Reopen),
     ];
     (base, prop::option::weighted(0.15, any::<u16>())).prop_map(|(op, c)| match c {
@@ -182,6 +183,46 @@ pub fn big_replica_strategy() -> impl Strategy<Value = Vec<SOp>> {
     })
 }
 
+/// Replicas of a 2-4 page writer that hold blocks on some pages and none on a page in between, then
+/// clear ranges that start at an arbitrary offset inside one page and end inside a later one.
+pub fn page_gap_replica_strategy() -> impl Strategy<Value = Vec<SOp>> {
+    prop_oneof![Just(65537u32), Just(70000), Just(98305), Just(110000)].prop_flat_map(|n| {
+        let pages = (n as u64 + 32767) / 32768;
+        let fetch = |i: u64| SOp::R(Req { target: Target::BlockAt(i), upgrade: Upg::Full, seek: Seek::None });
+        // blocks near the start of a page, its end, or anywhere in it
+        let in_page = move |p: u64| {
+            prop_oneof![0u64..6, 0u64..200, 32700u64..32768, 0u64..32768].prop_map(move |o| (p * 32768 + o).min(n as u64 - 1))
+        };
+        let held = prop::collection::vec((0..pages).prop_flat_map(in_page), 1..7);
+        let skip_page = 0..pages; // no block is fetched from this page (unless it is the only one)
+        let clear = (0..pages, prop_oneof![1u64..300, 1u64..32768], 0..pages, prop_oneof![0u64..8, 0u64..300, 0u64..32768])
+            .prop_map(|(ps, os, pe, oe)| SOp::RClearAt(ps * 32768 + os, pe.max(ps + 1) * 32768 + oe + 1));
+        (held, skip_page, prop::collection::vec((clear, any::<bool>(), prop::option::of((0..pages).prop_flat_map(in_page))), 1..4), any::<bool>()).prop_map(
+            move |(held, skip, clears, reopen_first)| {
+                let mut s = vec![SOp::W(Op::Big(n))];
+                for i in held {
+                    if i / 32768 != skip {
+                        s.push(fetch(i));
+                    }
+                }
+                if reopen_first {
+                    s.push(SOp::RReopen);
+                }
+                for (c, reopen, again) in clears {
+                    s.push(c);
+                    if reopen {
+                        s.push(SOp::RReopen);
+                    }
+                    if let Some(i) = again {
+                        s.push(fetch(i));
+                    }
+                }
+                s
+            },
+        )
+    })
+}
+
 pub fn small_replica_strategy() -> impl Strategy<Value = Vec<SOp>> {
     let step = prop_oneof![
         10 => sop_strategy(),
@@ -251,8 +292,8 @@ pub fn run(ctx: &Ctx) {
         "cases = (1) all C01 alphabet sequences up to length L with the contiguous-length oracle, (2) scaled writer histories: big \
          batches (8191..65537 one-byte blocks), small appends, clears (incl. ones placed at fixed fractions so they straddle page \
          edges), reopens and crash-recovery steps (crash after a generated number of the call's storage operations, recover, continue), \
-         (3) replicas fetching blocks pages apart from a 32769..70000-block writer with reopens and replica-side clears (single \
-         blocks and arbitrary ranges), (4) replicas holding all blocks but one of a writer whose length is an exact multiple of the \
+         (3) replicas fetching blocks pages apart from a 32769..110000-block writer with reopens and replica-side clears (single \
+         blocks, arbitrary ranges, and ranges that start inside a page the replica never touched and end inside one it holds blocks on), (4) replicas holding all blocks but one of a writer whose length is an exact multiple of the \
          page size, the gap closed last, (5) small random sessions with replica-side clears. Oracle after every step: has(i) == model for ALL i < length, false for \
          length..length+3, for 6 probes in each of the 5 following pages and for far probes; contiguous_length == first missing index. \
          Non-trivial = length > 32768 with >= 1 reopen/crash recovery, or a replica holding blocks on >= 2 bitfield pages, or a clear \
@@ -274,7 +315,12 @@ pub fn run(ctx: &Ctx) {
     );
     ctx.extra("exhaustive_stage", json!({"alphabet": ALPHABET, "max_len": l, "sequences": n, "exhaustive": true}));
     random_stage(ctx, "scaled", ctx.tier.pick(240, 5_000), scaled_strategy, |ops: &Vec<C8Op>, local| run_scaled(ops, local));
+    random_stage(ctx, "page-clears", ctx.tier.pick(64, 1_200), page_clear_history_strategy, |ops: &Vec<Op>, local| {
+        let wrapped: Vec<C8Op> = ops.iter().cloned().map(C8Op::Do).collect();
+        run_scaled(&wrapped, local)
+    });
     random_stage(ctx, "big-replicas", ctx.tier.pick(64, 1_500), big_replica_strategy, |ops: &Vec<SOp>, local| run_replica(ops, true, local));
+    random_stage(ctx, "page-gap-replicas", ctx.tier.pick(96, 2_000), page_gap_replica_strategy, |ops: &Vec<SOp>, local| run_replica(ops, true, local));
     let mut fp = vec![
         FullPageCase { len: 32768, gap: 5, reopen_before_closing: false },
         FullPageCase { len: 32768, gap: 32767, reopen_before_closing: true },
